@@ -10,7 +10,9 @@ class C03(Prop):
             "fan-out loop, the rings and the streams manager, every result, and at the end what every stream still yields); arc/full_sync, arc/crossbeam, ogre_arc/atomic and "
             "ogre_arc/full_sync under the same scheduler with the oracle only. Oracle on every implementation history: per listener no duplicate, nothing unsent, each producer's events "
             "in order; when the run ends with no operation in progress, yielded + still queued = every accepted event, per listener; every event seen at ONE address by all listeners. "
-            "non-trivial = at least 2 listeners and a context switch inside a fan-out loop")
+            "A second family ('setup'): 2-3 threads each create a listener concurrently (every shared access of create_stream_id scheduled) and poll it while a producer sends; "
+            "everything accepted after the last creation returned must reach every listener. "
+            "non-trivial = at least 2 listeners and a context switch inside a fan-out loop (setup: two creations overlap)")
     trusted_base = ["arc/atomic is the modelled kind; the other four non-log kinds run the same generated cases through the same scheduler hooks but are judged by the oracle only (no lock-step model)",
                     "the mmap-log Multi channel is covered at the log-topic level under C09, not here",
                     "completeness ('every accepted event reaches every listener') is checked on every implementation history at quiescence, the theorems give per-listener at-most-once / order / nothing invented for every schedule",
@@ -22,10 +24,19 @@ class C03(Prop):
         out = [Suite("arc_atomic", multigen.HEADER, [multigen.gen_fixed(rng, "arc_atomic") for _ in range(n)])]
         for kind in KINDS:
             out.append(Suite(kind, "", [multigen.gen_fixed(rng, kind) for _ in range(m)], compare=False))
+        # listeners set up concurrently by several threads (every access of the creations scheduled), then steady state
+        out.append(Suite("setup_arc_atomic", multigen.HEADER, [multigen.gen_setup(rng, "arc_atomic") for _ in range(n // 2)]))
+        for kind in KINDS:
+            out.append(Suite("setup_" + kind, "", [multigen.gen_setup(rng, kind) for _ in range(m // 2)], compare=False))
         return out
-    def oracle(self, case, recs): return multigen.oracle_fixed(case, recs)
-    def nontrivial(self, case, recs): return multigen.nontrivial_fixed(case, recs)
+    def oracle(self, case, recs):
+        return multigen.oracle_setup(case, recs) if case.meta.get("profile") == "setup" else multigen.oracle_fixed(case, recs)
+    def nontrivial(self, case, recs):
+        return multigen.nontrivial_setup(case, recs) if case.meta.get("profile") == "setup" else multigen.nontrivial_fixed(case, recs)
     def parse_replay(self, text):
         lines = [l for l in text.splitlines() if l.strip() and not l.startswith("#")]
         cases = [multigen.parse_case_line(l) for l in lines]
+        for c in cases:
+            if any(n == "creates" for p in c.meta["progs"] for n, a in p):
+                c.meta["profile"] = "setup"; c.meta["creators"] = [t for t, p in enumerate(c.meta["progs"]) if p and p[0][0] == "creates"]
         return Suite("replay", multigen.HEADER, cases, compare=all(c.meta["chan"] == "arc_atomic" for c in cases))
